@@ -30,6 +30,12 @@ CLAIMS = {
   "all convenience entry points make the one M.Minify call with the caller's media type and the response writer calls exactly what Match returns; wg.Add before go, deferred Done/pipe close, error stored, Close = close pipe, wait, read error; "
   "Content-Length is deleted before any changed body reaches the wrapped ResponseWriter; Content-Type overrides the path-extension guess before matching; middlewares always Close. Goroutine schedules themselves are not explored.",
   OTHER_NOTE, "DESIGN.md §4 C12"),
+ "C13": ("other",
+  "SSA store/provenance enumeration, interprocedural may-write effect summaries (fixpoint), lock domination on the CFG, VTA call-graph reachability, determinism lints",
+  "Decides the structural ways the shared registry could race or become nondeterministic (R13.1-R13.5, DESIGN.md §4 C13): option structs are only written through fresh copies; shallow struct copies are not written through shared reference fields; "
+  "no package-level state is stored to outside init and no package-level slice is handed to a parameter that may be written through; registry fields are only accessed under the mutex and no registrar is reachable from a minifier; "
+  "package-level append bases always reallocate; no map-order, clock, random or environment dependence. Flows of package-level slices through struct fields, and real schedules, are not covered.",
+  OTHER_NOTE, "DESIGN.md §4 C13"),
  "C14": ("other",
   "must-pass-through and domination rules on the CFG of the six Minify methods and of the pipe wrappers",
   "Decides that success is only reported after the final probe w.Write(nil) whose error is tested and returned, and only under Err()==io.EOF (js: after js.Parse's error was returned); every other exit returns an error; "
